@@ -416,6 +416,31 @@ Proof.
     cbn [existsb]. rewrite expected_cons, Es, Eo. reflexivity.
 Qed.
 
+(* the same for a direct push: a content that does not name q among its
+   successors (subject, config, layers / blobs / manifests) changes nothing
+   about q *)
+Theorem raw_frame : forall ops d c q, forallb wf_op (ops ++ [OpRaw d c]) = true ->
+  refers q (mk_entry d c) = false ->
+  fst (list_sigs (state_after (ops ++ [OpRaw d c])) q) = fst (list_sigs (state_after ops) q).
+Proof.
+  intros ops d c q W R. destruct (wf_app _ _ W) as [W1 Wo]. cbn [forallb wf_op] in Wo.
+  rewrite andb_true_r in Wo. apply Z.leb_le in Wo.
+  rewrite (list_sigs_spec _ q (state_after_inv _ W)), (list_sigs_spec _ q (state_after_inv _ W1)).
+  rewrite state_after_snoc. cbn [step]. set (s := state_after ops).
+  destruct (push1_spec s d c) as [(_ & ->)|[(_ & _ & ->)|[(_ & S & _ & ->)|(_ & S & _ & ->)]]];
+    cbn [fst]; try reflexivity.
+  - assert (Ok : entry_ok (mk_entry d c)) by (unfold entry_ok, mk_entry; cbn; auto).
+    assert (Es : sig_entry_for q (mk_entry d c) = false).
+    { destruct (sig_entry_for q (mk_entry d c)) eqn:E; [|reflexivity].
+      rewrite (sig_entry_refers q _ Ok E) in R. discriminate R. }
+    cbn [existsb]. rewrite expected_cons, Es. unfold oversize_ref at 1. rewrite R, andb_false_r. reflexivity.
+  - assert (Ok : entry_ok (mk_entry d c)) by (unfold entry_ok, mk_entry; cbn; auto).
+    assert (Es : sig_entry_for q (mk_entry d c) = false).
+    { destruct (sig_entry_for q (mk_entry d c)) eqn:E; [|reflexivity].
+      rewrite (sig_entry_refers q _ Ok E) in R. discriminate R. }
+    cbn [existsb]. rewrite expected_cons, Es. unfold oversize_ref at 1. rewrite R, andb_false_r. reflexivity.
+Qed.
+
 (* ---------- refusals: nothing above the cap is ever fetched or returned ---------- *)
 Theorem list_never_fetches_oversize : forall st q g, In g (snd (list_sigs st q)) ->
   exists m, In m (predecessors st q) /\ g = d_dg m /\ is_sigmt (d_mt m) = true /\ (d_sz m <= capM)%Z.
